@@ -322,3 +322,51 @@ fn check_tree<K: Ord + std::fmt::Debug, V>(
     }
     a.shape_hash = crate::util::fnv(a.shape_hash, shape);
 }
+
+
+/// Self-test of the red-black checker on hand-made tree dumps (one valid, several broken).
+pub fn selftest() -> Vec<String> {
+    use flurry::verif::NodeDump;
+    let mut fails = Vec::new();
+    static KEYS: [u64; 8] = [0, 1, 2, 3, 4, 5, 6, 7];
+    static VAL: u64 = 0;
+    // a 3-node tree: 2 (black root) with children 1 and 3 (red); list order 2 -> 1 -> 3
+    let mk = |red_root: bool, swap_order: bool, bad_parent: bool, drop_from_list: bool, red_red: bool| -> Audit {
+        let nd = |addr: usize, k: usize| NodeDump { addr, hash: 0, key: &KEYS[k], value_addr: 0x9000, value: Some(&VAL), locked: false };
+        let (lk, rk) = if swap_order { (3, 1) } else { (1, 3) };
+        let mut nodes = vec![
+            TreeNodeDump { node: nd(0x20, 2), parent: 0, left: 0x10, right: 0x30, prev: 0, next: 0x10, red: red_root },
+            TreeNodeDump { node: nd(0x10, lk), parent: if bad_parent { 0x30 } else { 0x20 }, left: 0, right: 0, prev: 0x20, next: if drop_from_list { 0 } else { 0x30 }, red: true },
+            TreeNodeDump { node: nd(0x30, rk), parent: 0x20, left: 0, right: 0, prev: 0x10, next: 0, red: true },
+        ];
+        let mut list = vec![0x20, 0x10, 0x30];
+        if drop_from_list {
+            list.pop();
+        }
+        if red_red {
+            // hang a red child under the red node 1
+            nodes[1].left = 0x05;
+            nodes.push(TreeNodeDump { node: nd(0x05, 0), parent: 0x10, left: 0, right: 0, prev: 0x30, next: 0, red: true });
+            nodes[2].next = 0x05;
+            list.push(0x05);
+        }
+        let mut a = Audit::default();
+        check_tree(&mut a, 0, 0x20, 0x20, &list, &nodes);
+        a
+    };
+    if !mk(false, false, false, false, false).ok() {
+        fails.push(format!("tree selftest: a valid tree was rejected: {:?}", mk(false, false, false, false, false).failures));
+    }
+    for (name, a) in [
+        ("red root", mk(true, false, false, false, false)),
+        ("order violated", mk(false, true, false, false, false)),
+        ("wrong parent link", mk(false, false, true, false, false)),
+        ("node missing from the list", mk(false, false, false, true, false)),
+        ("red node with red child", mk(false, false, false, false, true)),
+    ] {
+        if a.ok() {
+            fails.push(format!("tree selftest: broken tree ({name}) was accepted"));
+        }
+    }
+    fails
+}
